@@ -128,7 +128,8 @@ RULE = (
     "Units: every session x {select, asyncio, tornado, twisted, trio, zmq} on the raw screen + "
     "the default loop on a screen without hook_event_loop (MainLoop._run_screen_event_loop), pop_ups and the "
     "other flags alternating (quick) or crossed (thorough); the terminal's descriptors alternate over the loops "
-    "of a session and from session to session (quick) and both are run for every session x loop (thorough). "
+    "of a session and from session to session (quick) and both are run for every session x loop (thorough; a pop-up session, which has one "
+    "variant per loop, alternates there too). "
     "For every unit that is not a sweep the session is first run without "
     "injection to learn the N user-callback invocations of its last run(); then one run per (i < N) x {ExitMainLoop, "
     "Boom(Exception), SystemExit (quick: every other i)} with the exception raised by invocation i. Each run is "
@@ -1628,7 +1629,8 @@ def units(ctx):
                     "handlers": "methods" if (si + k) % 4 in (1, 2) else "args",
                     # which descriptors the terminal is: 0 / 1 (standard input / output, the Screen's default) or a
                     # pair of the application's own; alternates over the loops of a session, from session to
-                    # session, and over the variants of a unit (thorough: both for every session x loop)
+                    # session, and over the variants of a unit (thorough: both for every session x loop that has
+                    # two variants)
                     "tty": "std" if (si + ci + vi) % 2 == 0 else "high",
                 }
                 for opt in ("tree", "swap"):
